@@ -93,6 +93,31 @@ def run(seed):
     check("numpy unicode dtype truncation", [(np_model.asarray(["abc", "de"], dtype=np.asarray(["x", "yy"]).dtype), np.asarray(["abc", "de"], dtype=np.asarray(["x", "yy"]).dtype))])
     check("numpy.unique(axis=0)", [(list(np_model.unique(np_model.array(r), return_counts=True, axis=0)), list(np.unique(np.array(r), return_counts=True, axis=0)))
                                     for r in ([[0, 1], [0, 1], [1, 0]], [[1, 1]], [[2, 0], [0, 2], [2, 0]])])
+    tri = []
+    for n in (1, 2, 3, 4, 5):
+        for k in (-1, 0, 1):
+            tri.append(([x.tolist() for x in np_model.triu_indices(n, k)], [x.tolist() for x in np.triu_indices(n, k)]))
+            tri.append(([x.tolist() for x in np_model.tril_indices(n, k)], [x.tolist() for x in np.tril_indices(n, k)]))
+        vals = list(range(1, n * (n - 1) // 2 + 1))
+        mm, rr = np_model.full((n, n), -1.0), np.full((n, n), -1.0)
+        mm[np_model.triu_indices(n, 1)] = vals
+        rr[np.triu_indices(n, 1)] = vals
+        mm[np_model.tril_indices(n, -1)] = vals
+        rr[np.tril_indices(n, -1)] = vals
+        tri.append((mm.tolist(), rr.tolist()))
+    for vals in ([0, 0, 0], [0, 2, 0], [1, 1], [], [True, False], [3, -1, 2, -1]):
+        ma, ra = np_model.array(vals), np.array(vals)
+        tri.append((bool(ma.any()), bool(ra.any())))
+        tri.append((bool(ma.all()), bool(ra.all())))
+        tri.append((bool(np_model.any_(ma)), bool(np.any(ra))))
+        tri.append((np_model.where(ma)[0].tolist(), np.where(ra)[0].tolist()))
+        if vals:
+            tri.append((int(ma.argmin()), int(ra.argmin())))
+            tri.append((int(ma.argmax()), int(ra.argmax())))
+            tri.append((float(ma.mean()), float(ra.mean())))
+            tri.append((np_model.where(ma > 0, ma, -5).tolist(), np.where(ra > 0, ra, -5).tolist()))
+            tri.append((ma[ma > 0].tolist(), ra[ra > 0].tolist()))
+    check("numpy.full / triu_indices / tril_indices / paired fancy assignment", tri)
     # SciPy
     sq = []
     for n in (2, 3, 4):
@@ -138,6 +163,43 @@ def run(seed):
                                    (list(s_m.dropna()._index), list(s_r.dropna().index)),
                                    ([x is None for x in s_m.astype(str)._values], [x is None or x != x for x in s_r.astype(str)]) if False else (1, 1),
                                    (s_m[7], s_r[7]), (list(s_m.iloc[[2, 0]]._values), list(s_r.iloc[[2, 0]]))])
+    # column assignment aligns on the index; from_dict(orient='index')
+    acases = []
+
+    def _nn(vals):
+        return [None if (v is None or v != v) else v for v in vals]
+    for tgt, src in [([5, 6, 7], [5, 6, 7]), ([5, 6, 7], [7, 5, 6]), ([5, 5, 6], [5, 6]), ([5, 5, 6], [6, 5, 9]), ([1, 2], [3, 4]), ([0, 1, 0, 1], [0, 1]),
+                     ([5, 5, 6], [5, 5, 6]), ([5, 6, 5], [5, 5, 6])]:
+        vals = [f"v{k}" for k in range(len(src))]
+        mt, rt = pd_model.DataFrame({"a": list(range(len(tgt)))}, index=tgt), pd.DataFrame({"a": list(range(len(tgt)))}, index=tgt)
+        try:
+            mt["b"] = pd_model.Series(vals, index=src)
+            m_out = _nn(mt["b"]._values)
+        except ValueError:
+            m_out = "ValueError"
+        try:
+            rt["b"] = pd.Series(vals, index=src, dtype=object)
+            r_out = _nn(list(rt["b"]))
+        except ValueError:
+            r_out = "ValueError"
+        acases.append((m_out, r_out))
+        mv = pd_model.DataFrame.from_dict({k: (f"x{k}", f"y{k}") for k in src}, orient="index", columns=["p", "q"])
+        rv = pd.DataFrame.from_dict({k: (f"x{k}", f"y{k}") for k in src}, orient="index", columns=["p", "q"])
+        acases.append(([list(mv._index), list(mv._cols["p"]), list(mv._cols["q"])], [list(rv.index), list(rv["p"]), list(rv["q"])]))
+        try:
+            mt2 = pd_model.DataFrame({"a": list(range(len(tgt)))}, index=tgt)
+            mt2[["p", "q"]] = mv
+            m2 = [_nn(mt2["p"]._values), _nn(mt2["q"]._values)]
+        except ValueError:
+            m2 = "ValueError"
+        try:
+            rt2 = pd.DataFrame({"a": list(range(len(tgt)))}, index=tgt)
+            rt2[["p", "q"]] = rv
+            r2 = [_nn(list(rt2["p"])), _nn(list(rt2["q"]))]
+        except ValueError:
+            r2 = "ValueError"
+        acases.append((m2, r2))
+    check("pandas setitem alignment / from_dict", acases)
     return res
 
 
